@@ -146,6 +146,72 @@ theorem order_irrelevant (table : List KeyId) (rk : RoleKeys) (m : Msg) (a b : L
       simp_all
   exact verify_congr _ _ _ _ _ hv
 
+/-! ### The verification sites of an update cycle -/
+
+mutual
+/-- every delegated role of the loaded tree is signed by a threshold of distinct keys that its
+parent's delegations object authorizes for it (any depth) -/
+def TreeVerified : Tgt → Prop
+  | .mk doc children =>
+    match doc.deleg with
+    | none => True
+    | some d => RolesVerified d children
+def RolesVerified (d : Deleg) : Roles → Prop
+  | .nil => True
+  | .cons r t rest =>
+    (∃ r', d.roles.find? (fun x => x.name == r.name) = some r' ∧
+      r'.threshold ≤ (validSigners d.keys ⟨r'.keyids, r'.threshold⟩ (Tgt.doc t).msg (Tgt.doc t).sigs).length) ∧
+    TreeVerified t ∧ RolesVerified d rest
+end
+
+mutual
+theorem treeVerified_of_good {cfg : Config} {srv : Server} {snap : Snapshot} {cs : Bool} :
+    (t : Tgt) → Tgt.Good cfg srv snap cs t → TreeVerified t
+  | .mk doc children, h => by
+    simp only [Tgt.Good] at h
+    simp only [TreeVerified]
+    cases hd : doc.deleg with
+    | none => trivial
+    | some d =>
+      simp only [hd] at h
+      exact rolesVerified_of_good d children h
+theorem rolesVerified_of_good {cfg : Config} {srv : Server} {snap : Snapshot} {cs : Bool} (d : Deleg) :
+    (rs : Roles) → Roles.Good cfg srv snap cs d rs → RolesVerified d rs
+  | .nil, _ => trivial
+  | .cons r t rest, h => by
+    simp only [Roles.Good] at h
+    simp only [RolesVerified]
+    exact ⟨(deleg_verify_iff d r.name _ _).mp h.1.verified, treeVerified_of_good t h.2.1,
+      rolesVerified_of_good d rest h.2.2⟩
+end
+
+/-- **C01.e (every site).** If an update cycle succeeds, then the shipped root, every newer root
+on the way (under the previous root's keys *and* under its own), the timestamp, the snapshot, the
+top-level targets (each under the final root) and every delegated role at any depth (under its
+parent's delegations) carry valid signatures by at least the role's threshold of distinct
+authorized keys. -/
+theorem cycle_ok_all_sites_verified {cfg : Config} {srv : Server} {shipped : Option Root}
+    {st st' : St} {v : View} (h : cycle cfg srv shipped st = (.ok v, st')) :
+    (∃ r0, shipped = some r0 ∧
+      (∃ rk, r0.role .root = some rk ∧ rk.threshold ≤ (validSigners r0.keys rk r0.msg r0.sigs).length) ∧
+      Chain cfg srv r0 v.root) ∧
+    (∃ rk, v.root.role .timestamp = some rk ∧ rk.threshold ≤ (validSigners v.root.keys rk v.ts.msg v.ts.sigs).length) ∧
+    (∃ rk, v.root.role .snapshot = some rk ∧ rk.threshold ≤ (validSigners v.root.keys rk v.snap.msg v.snap.sigs).length) ∧
+    (∃ rk, v.root.role .targets = some rk ∧
+      rk.threshold ≤ (validSigners v.root.keys rk (Tgt.doc v.tgt).msg (Tgt.doc v.tgt).sigs).length) ∧
+    TreeVerified v.tgt := by
+  obtain ⟨st1, st2, st3, hr, ht, hs, hg⟩ := cycle_ok h
+  obtain ⟨r0, e0, v0, c, _⟩ := hr.shipped
+  exact ⟨⟨r0, e0, (root_verify_iff _ _ _ _).mp v0, c⟩, (root_verify_iff _ _ _ _).mp ht.verified,
+    (root_verify_iff _ _ _ _).mp hs.verified, (root_verify_iff _ _ _ _).mp hg.verified,
+    treeVerified_of_good _ hg.tree⟩
+
+/-- each hop of the chain is doubly verified in the sense of the specification -/
+theorem hop_verified {cfg : Config} {srv : Server} {a b : Root} (h : Hop cfg srv a b) :
+    (∃ rk, a.role .root = some rk ∧ rk.threshold ≤ (validSigners a.keys rk b.msg b.sigs).length) ∧
+    (∃ rk, b.role .root = some rk ∧ rk.threshold ≤ (validSigners b.keys rk b.msg b.sigs).length) :=
+  ⟨(root_verify_iff _ _ _ _).mp h.byOld, (root_verify_iff _ _ _ _).mp h.byNew⟩
+
 /-! ### The defect that was repaired
 
 `Delegations::verify_role` had no set: `verifyNoSet` counts every valid signature.  Two
